@@ -32,6 +32,29 @@ P = {
  "C18": ("model_checking", "exhaustive relation sweep of the real Keyboard against a composite of three real stages (result + per-stage state via hook H4) over the product state space at deviation bound 1 (quick) / full product 2047x6x1024 and 2047x3x1024 states x 2681 operations (thorough); closed BFS (own + stateright) of (Keyboard x composite) over a reduced alphabet",
          "Every (product state, operation) transition is executed on the real Keyboard and on the reference wiring; equality of results and of all three stage states proves isolation; closure under reachability makes it a statement about all operation sequences. The BFS over a reduced alphabet additionally covers hidden cross-stage state.",
          "Trusted: apply_ref (compose.rs), ~20 lines transcribing the statement. The stages themselves are the real code. Layout = recording layout Echo.", "DESIGN.md 7/C18"),
+ "C03": ("exploration", "exhaustive table sweep: 30 layout objects x main-block character keys x every level-selecting modifier value (of 512) x 2 modes against hand-written national layout tables; end-to-end through real scancodes -> Keyboard<real layout> in all 512 reachable modifier states",
+         "The domain of the pure layout functions is enumerated completely for the states the property constrains (CapsLock off, Ctrl not mapped, Shift+AltGr free).",
+         "Trusted: R-LAYOUT (harness/src/refs/layouts.rs), written from KBDUS/KBDUK/KBDGR/KBDFR/KBDNO/KBDFI/KBD106/KBDDV, colemak.com, Programmer Dvorak; variant cells are sets; Colemak/DVP AltGr cells are unjudged.", "DESIGN.md 7/C03"),
+ "C08": ("exploration", "exhaustive enumeration of every input x every reachable state of every component (graphs from explicit-state BFS; Keyboard product at deviation bound 1 / full product) in a journalling child process under catch_unwind, built with overflow checks and debug assertions; abort and hang detection by the parent",
+         "Oracle is only 'returned normally'; reachable states come from the explorations so unreachable unimplemented!() arms raise no alarm.",
+         "Assumes the checked build profile (harness/Cargo.toml). Watchdog 300 s (quick) / 1800 s (thorough) per journal line.", "DESIGN.md 7/C08"),
+ "C09": ("exploration", "exhaustive table sweep 30 layout objects x 124 keys x 512 modifier values x 2 modes with a self-referential oracle (control code of the layout's own unmodified letter; mode/Ctrl change nothing elsewhere); thorough adds EventDecoder with set_ctrl_handling",
+         "Complete enumeration of the layout functions' domain; no reference table.", "Ctrl+Alt in mapping mode unconstrained; in Ignore mode Ctrl+left Alt legitimately forms AltGr.", "DESIGN.md 7/C09"),
+ "C10": ("exploration", "exhaustive table sweep 30 layout objects x 124 keys x 256 CapsLock-off/on twin pairs x 2 modes, self-referential (letter key = lowercase whose Shift form is its uppercase); plus real CapsLock key events through EventDecoder",
+         "Complete enumeration; no reference table.", "Letter-key definition admits national letters and excludes ß/?, ù/%, é/2.", "DESIGN.md 7/C10"),
+ "C11": ("exploration", "exhaustive table sweep 30 layout objects x 124 keys x 2 modes x 512 modifier values partitioned into the 16/32 abstract classes (class-mates must agree); five public predicates on all 512 values against boolean formulas",
+         "Complete enumeration.", "Trusted: R-PRED (common.rs r_*), five one-line formulas from the property text.", "DESIGN.md 7/C11"),
+ "C12": ("exploration", "exhaustive search over 30 layout objects x 124 keys x 3 plain levels for a witness of each of the 95 printable ASCII characters; thorough re-types every character through EventDecoder key events",
+         "Existence is decided by complete enumeration of the search space.", "Levels: no modifier, left Shift, right Alt (NumLock in its initial state).", "DESIGN.md 7/C12"),
+ "C13": ("model_checking", "exhaustive enumeration of 3 prefix tables x 130 translatable Set 2 codes x {make,break} through both real decoders under the i8042 translation table, and conversely all Set 1 codes against their pre-images; explicit-state BFS (own + stateright) of a pair of real Keyboards fed the Set 2 stream and its translation, over all 512 modifier states",
+         "Table level: complete. End-to-end: closed search of the pair system over press/release of every key expressible in both sets (quick: 2 layouts x 1 mode; thorough: 10 layouts x 2 modes).",
+         "Trusted: R-8042 (refs/scancodes.rs XLATE), the published controller translation table.", "DESIGN.md 7/C13"),
+ "C15": ("exploration", "exhaustive table sweep 30 layout objects x 23 keys x 512 modifier values x 2 modes against the numpad/editing reference",
+         "Complete enumeration.", "Trusted: R-NUMPAD / R-EDIT (refs/layouts.rs); decimal separator: '.'; ',' for NO and FI/SE; either for DE and FR; Numpad5 with NumLock off: '5' or its own raw key.", "DESIGN.md 7/C15"),
+ "C16": ("exploration", "exhaustive table sweep 30 layout objects x 124 keys x 512 modifier values x 2 modes: the 52 character-less keys must be RawKey(self); any raw output must be the key itself or its NumLock-off alias",
+         "Complete enumeration.", "Trusted: R-RAW52 (refs/layouts.rs).", "DESIGN.md 7/C16"),
+ "C17": ("exploration", "exhaustive differential sweep AnyLayout / &AnyLayout vs the wrapped layout on 10 x 2 x 124 x 512 x 2 points; change_layout over all 10x10 ordered pairs on real EventDecoder<AnyLayout> and EventDecoder<&AnyLayout>; pairwise distinguishability of the ten tables measured",
+         "Complete enumeration; differential, no table.", "None.", "DESIGN.md 7/C17"),
 }
 NOT_YET = {}  # id -> reason (filled below for everything not in P)
 
